@@ -9,6 +9,7 @@ from ..astutil import (src, flat_guards, calls_in, call_name, kwarg, const_value
 from ..cfg import cfg_of, Prov
 from .. import absint
 from .. import variants as V
+from .. import kernel
 
 PROPERTY = "C08"
 TITLE = "Instantiation helpers pick type arguments within bounds and allowed variance"
@@ -641,6 +642,16 @@ def r6b_bound_assignment(repo):
     return obs
 
 
+def r8_equality(repo):
+    """the assignment is a dict keyed by TypeParameter objects and pre-assignments are looked up by equality: two parameters that compare equal share one entry"""
+    return kernel.equality_is_structural(repo, "C08-R8")
+
+
+def r9_fold(repo):
+    """a bound is substituted with the other arguments only if has_type_variables() says there is something to substitute"""
+    return kernel.has_type_variables_fold(repo, "C08-R9")
+
+
 def rules():
     return [
         RuleSpec("C08-R1", "exactly one argument and one map entry per type parameter", 5, r1_exactly_one),
@@ -654,6 +665,8 @@ def rules():
         RuleSpec("C08-R6b", "parameter bounded by a type variable: what it takes from that variable's assignment "
                             "(all abstract inputs)", 108, r6b_bound_assignment),
         RuleSpec("C08-R7", "PECS tables", 2, r7_pecs),
+        RuleSpec("C08-R8", "equality of types is structural (assignments are keyed by type parameters)", 6, r8_equality),
+        RuleSpec("C08-R9", "has_type_variables is the structural fold (bounds are substituted only where it answers True)", 7, r9_fold),
     ]
 
 
